@@ -113,29 +113,61 @@ func OnePerShape(shapes []histmodel.Shape) []Atom {
 	return out
 }
 
-// FullShapes is the core histmodel set plus three gauge variants that share schema and zero
-// threshold (so that gauge chunks are recoded both ways instead of being cut). Simplest first.
+// grown returns the specification spec with extra observations: the given bucket increments on
+// either side (count grows accordingly), as a new specification called name.
+func grown(shapes []histmodel.Shape, spec, name string, pos, neg map[int32]float64, sum float64) histmodel.Shape {
+	m := find(shapes, spec).Model.Copy()
+	for k, v := range pos {
+		m.Pos[k] += v
+		m.Count += v
+	}
+	for k, v := range neg {
+		m.Neg[k] += v
+		m.Count += v
+	}
+	m.Sum = sum
+	return histmodel.Shape{Name: name + "/L0", Model: m, Float: m.ToFloat(0), Int: m.ToInt(0), Exact: true}
+}
+
+// withGrown adds "e06p-s0-both-sides-grown": e06 with one more populated bucket at the far end of
+// the positive side and one at the front of the negative side. After e06 in a padded layout it
+// needs forward AND backward inserts on both sides.
+func withGrown(shapes []histmodel.Shape) []histmodel.Shape {
+	return append(shapes, grown(shapes, "e06-s0-both-sides", "e06p-s0-both-sides-grown",
+		map[int32]float64{6: 1}, map[int32]float64{0: 1}, 55))
+}
+
+// FullShapes is the core histmodel set plus (a) gauge variants that share schema and zero
+// threshold (so that gauge chunks are recoded both ways instead of being cut) and (b) padded and
+// grown variants of shapes with negative buckets (the core set's round-robin layouts never put a
+// stored empty NEGATIVE bucket in front of a compatible successor). Simplest first.
 func FullShapes() []histmodel.Shape {
-	shapes := histmodel.Shapes()
+	shapes := withGrown(histmodel.Shapes())
 	return append(shapes,
 		Derive(shapes, "e04-s0-grown-front", 0, true),
 		Derive(shapes, "e05-s0-gap", 1, true),
-		Derive(shapes, "e02-s0-two", 2, true))
+		Derive(shapes, "e02-s0-two", 2, true),
+		Derive(shapes, "e06-s0-both-sides", 1, false),
+		Derive(shapes, "e07-s0-neg-only", 1, false),
+		Derive(shapes, "e06-s0-both-sides", 3, true),
+		Derive(shapes, "e06p-s0-both-sides-grown", 1, true))
 }
 
-// SmallShapes is the 13-shape alphabet for the deeper bound: shapes that collide with each other
+// SmallShapes is the 14-shape alphabet for the deeper bound: shapes that collide with each other
 // in every way the chunk appenders distinguish (forward inserts, backward inserts caused by
-// stored empty buckets, growth at the front, gaps, zero-threshold / schema / bucket-type change,
-// explicit reset hint, staleness marker, gauges recoded both ways, custom bounds).
+// stored empty buckets - on the positive and on the negative side -, growth at the front, gaps,
+// zero-threshold / schema / bucket-type change, explicit reset hint, staleness marker, gauges
+// recoded both ways, custom bounds).
 func SmallShapes() []histmodel.Shape {
-	s := histmodel.Shapes()
+	s := withGrown(histmodel.Shapes())
 	return []histmodel.Shape{
 		Derive(s, "e02-s0-two", 1, false),
 		Derive(s, "e03-s0-grown", 0, false),
 		Derive(s, "e04-s0-grown-front", 2, false),
 		Derive(s, "e05-s0-gap", 3, false),
 		Derive(s, "e01-zero-only", 0, false),
-		Derive(s, "e06-s0-both-sides", 0, false),
+		Derive(s, "e06-s0-both-sides", 1, false),
+		Derive(s, "e06p-s0-both-sides-grown", 0, false),
 		Derive(s, "e08-s1", 0, false),
 		Derive(s, "e29-stale", 0, false),
 		Derive(s, "e04-s0-grown-front", 0, true),
